@@ -375,6 +375,11 @@ type ctlInfo struct {
 
 type violation struct{ sig, msg string }
 
+type suspect struct {
+	r    *reqInfo
+	what string
+}
+
 type stateCheck struct {
 	c         *ctlInfo
 	cancelled bool
@@ -399,6 +404,11 @@ type observer struct {
 	resetBusy   *ctlInfo // first hook of a Reset seen, second not yet
 	resetTick   bool     // a Reset handler completed in the current agent tick
 	check       *stateCheck
+	// Top requests retrieved in the current tick while the agent was
+	// acknowledged paused / had a Drain pending. Legitimate only as part of a
+	// Reset handler (some handlers drain Top before the first Reset hook), so
+	// they are judged at the end of the tick.
+	suspects []suspect
 
 	events int
 	budget int
@@ -499,6 +509,7 @@ func (o *observer) land(c *ctlInfo) {
 }
 
 func (o *observer) killOutstanding() {
+	o.suspects = nil // retrieved by (or just before) a Reset handler: wiped, not accepted
 	for id, r := range o.outstanding {
 		r.state = rDead
 		delete(o.outstanding, id)
@@ -688,6 +699,11 @@ func (o *observer) outstandingSteps() []int {
 // state a few lines later).
 func (o *observer) afterAgentTick() {
 	o.resetTick = false
+	if len(o.suspects) > 0 && o.viol == nil {
+		x := o.suspects[0]
+		o.soft("accepted-new-traffic-while-"+x.what, "the request of step %d was taken from the Top port while the agent was %s (no Reset in that tick)", x.r.step, x.what)
+	}
+	o.suspects = nil
 	if o.resetBusy != nil {
 		// only one of {ack, dequeue} happened for a Reset inside one tick
 		o.fail("reset-not-synchronous", "Reset of step %d was dequeued and acknowledged in different ticks", o.resetBusy.step)
@@ -762,6 +778,12 @@ func (o *observer) onTopPort(ctx hooking.HookCtx) {
 		default:
 			r.state = rAccepted
 			o.outstanding[r.id] = r
+			switch {
+			case o.window:
+				o.suspects = append(o.suspects, suspect{r, "paused"})
+			case o.async != nil && o.async.verb == vDrain:
+				o.suspects = append(o.suspects, suspect{r, "draining"})
+			}
 		}
 	case messaging.HookPosPortMsgSend:
 		rspTo := msg.Meta().RspTo
